@@ -121,8 +121,8 @@ class SkPath(Ext):
             return PyCallable(st)
         if attr == "convertConicsToQuads":
             return PyCallable(lambda i, a, k: self.calls.append(("conics", tuple(a))))
-        if attr == "bounds":
-            return ("bounds", self)
+        if attr in ("bounds", "controlPointBounds"):
+            return (attr, self)
         if attr == "area":
             return SkArea(self)
         raise Undecided(f"pathops.Path.{attr} is not part of the model")
